@@ -186,6 +186,8 @@ def scenarios(tier, seed=0):
     for first, second in (pairs if tier != "quick" else pairs[:4]):
         for soil in ("SandyLoam", "Clay"):
             yield {"kind": "reuse", "first": first, "second": second, "soil": soil}
+    for cn, pct, adj in ((100, None, 1), (100, None, 0), (99, None, 1), (80, 25, 0), (80, 25, 1), (50, 100, 0), (1, None, 1), (30, -95, 0)):
+        yield {"kind": "cn", "cn": cn, "pct": pct, "adj_cn": adj}
     devs = list(OPTION_DEVS) + list(WINDOW_DEVS)
     for bi, b in enumerate(BASES):
         for d in devs:
@@ -199,6 +201,15 @@ def scenarios(tier, seed=0):
 
 
 def build(scn):
+    if scn["kind"] == "cn":
+        # custom soils whose (effective) curve number reaches the end of its range: 100 exactly, 99 raised by the antecedent-moisture
+        # adjustment, 80 x (1 + 25 %), and the low end
+        s = cat("Maize", "custom3", "none", word="showers", iwc="FC")
+        s["soil"] = copy.deepcopy(s["soil"])
+        s["soil"]["kw"] = dict(s["soil"].get("kw") or {}, cn=scn["cn"], adj_cn=scn["adj_cn"])
+        if scn.get("pct"):
+            s["field"] = {"curve_number_adj": True, "curve_number_adj_pct": scn["pct"]}
+        return s
     if scn["kind"] == "cat":
         return cat(scn["crop"], scn["soil"], scn["irr"])
     if scn["kind"] == "reuse":
